@@ -66,6 +66,7 @@ EDITED = ["method-after-edit", "function-after-edit"]      # the same calls on a
 TOL_T = 1e-3 + 1e-6
 
 OBLIGATIONS = {
+    "legs_shorter_than_a_tenth_of_a_millimetre": "a track with consecutive fixes 0.03 mm apart at one height was resampled in space and in time",
     "instant_on_interior_fix": "temporal: a requested instant equals the timestamp of an interior fix",
     "instant_on_first_fix": "temporal: a requested instant equals t0 (must be dropped)",
     "instant_on_last_fix": "temporal: a requested instant equals tn (must be kept)",
@@ -116,9 +117,9 @@ def fixes(variant, pts, times):
     """The track as plain numbers: x, y, z, t (floats that are exact dyadic values)."""
     ts = TSCALE[variant]
     out = []
-    for k, ((px, py), t) in enumerate(zip(pts, times)):
-        x, y = alpha.xy(variant, px, py)
-        out.append((x, y, 10.0 * k, _abs_secs(variant, ts * t)))
+    for k, (p, t) in enumerate(zip(pts, times)):
+        x, y = alpha.xy(variant, p[0], p[1])
+        out.append((x, y, float(p[2]) if len(p) > 2 else 10.0 * k, _abs_secs(variant, ts * t)))   # a third entry is the height
     return out
 
 
@@ -165,6 +166,8 @@ def temporal_args(variant, times):
     a.append({"kind": "list", "rel": rel_list(variant, times)})
     a.append({"kind": "track", "rel": list(ABS_REF)})
     a.append({"kind": "track", "rel": rel_list(variant, times)})
+    a.append({"kind": "list", "rel": []})              # nothing requested: nothing returned
+    a.append({"kind": "track", "rel": []})
     return a
 
 
@@ -564,8 +567,30 @@ def run_long(variant, n, ctx):
                 "requests": "every leg middle alone, every ordered pair of leg middles, steps, first spatial sample in each leg"})
 
 
+# ---- creeping tracks: consecutive fixes a few hundredths of a millimetre apart at one height (a receiver standing still) ----
+CREEP = 2.0 ** -15                 # 0.03 mm: below any "same position" tolerance a helper may apply, and not zero
+
+
+def creep_tracks():
+    pure = [(k * CREEP, (k % 2) * CREEP, 50.0) for k in range(6)]
+    arrive = [(0.0, 0.0, 50.0), (0.5, 0.0, 50.0)] + [(0.5 + k * CREEP, 0.0, 50.0) for k in range(1, 5)] + [(1.0, 0.0, 50.0)]
+    return [("pure", pure, tuple(range(6)), [CREEP / 2, CREEP, 1.5 * CREEP, 2 * CREEP]),
+            ("arrive-creep-leave", arrive, tuple(range(7)), [0.125, 0.25, 0.5 + 2 * CREEP, 0.5])]
+
+
+def run_creep(variant, ctx):
+    for name, pts, times, dss in creep_tracks():
+        for ds in dss:
+            check_spatial(variant, pts, times, ds, ctx)
+        for s_ in (0.5, 1, 1.5, 2):
+            check_temporal(variant, pts, times, {"kind": "step", "value": s_}, ctx)
+        ctx.oblige("legs_shorter_than_a_tenth_of_a_millimetre")
+        ctx.sample({"mode": "creeping track", "shape": name, "pts": [list(p_) for p_ in pts], "ds": dss})
+
+
 def plan(tier, variant):
     sh = _shards(variant, NMAX[tier])
+    sh.append({"kind": "creep", "variant": variant, "N": 0, "head": []})
     for n in LONG_N[tier]:
         sh.append({"kind": "long", "variant": variant, "N": n, "head": []})
     if tier == "thorough":
@@ -578,6 +603,8 @@ def plan(tier, variant):
 def run_shard(shard, ctx):
     if shard["kind"] == "long":
         return run_long(shard["variant"], shard["N"], ctx)
+    if shard["kind"] == "creep":
+        return run_creep(shard["variant"], ctx)
     v, n, head = shard["variant"], shard["N"], shard["head"]
     lat = alpha.order(v, LATTICE)
     sampled = False
